@@ -61,14 +61,15 @@ func runReaders(w *out.W, tier, outDir string) {
 			[]string{"CREATE TABLE t (a int);", "CREATE TABLE u (a text DEFAULT ';');"}, "golang-migrate comments"},
 		{flyway, "CREATE TABLE t (a int);\n\n\nCREATE TABLE u (a int)\n;\n", []string{"CREATE TABLE t (a int);", "CREATE TABLE u (a int)\n;"}, "flyway blank lines"},
 	}
-	// bufio.Scanner's 64 KiB token limit: a line of 65536 bytes ends the loop silently (known finding
-	// sqltool-long-line); the model's [lines] reproduces it
+	// bufio.Scanner's 64 KiB token limit (repaired, C07-sqltool-scanner-buffer): a line of 65536 bytes
+	// or more is read like any other (oracle only: the extracted scanner is quadratic in the statement)
 	long := "INSERT INTO t VALUES ('" + strings.Repeat("x", 65536-len("INSERT INTO t VALUES ('');")) + "');"
 	cases = append(cases,
-		readCase{goose, "-- +goose Up\nSELECT 1;\n" + long + "\nSELECT 2;\n-- +goose Down\nSELECT 3;\n", nil, "goose 65536-byte line"},
-		readCase{dbmate, "-- migrate:up\nSELECT 1;\n" + long + "\nSELECT 2;\n-- migrate:down\nSELECT 3;\n", nil, "dbmate 65536-byte line"},
-		readCase{goose, "-- +goose Up\nSELECT 1;\n" + long + "x\nSELECT 2;\n", nil, "goose 65537-byte line"},
+		readCase{goose, "-- +goose Up\nSELECT 1;\n" + long + "\nSELECT 2;\n-- +goose Down\nSELECT 3;\n", []string{"SELECT 1;", long, "SELECT 2;"}, "goose 65536-byte line (oracle only)"},
+		readCase{dbmate, "-- migrate:up\nSELECT 1;\n" + long + "\nSELECT 2;\n-- migrate:down\nSELECT 3;\n", []string{"SELECT 1;", long, "SELECT 2;"}, "dbmate 65536-byte line (oracle only)"},
 	)
+	// third-party files as people write them (exhaustive small domain, with required statement lists)
+	cases = append(cases, shapeCases()...)
 	// perturbations of real formatter output
 	r := rng.FromEnv(0xC0704)
 	n := 400
@@ -147,7 +148,11 @@ func runReaders(w *out.W, tier, outDir string) {
 		if c.fm.dialSc {
 			o = optSets["postgres"]
 		}
-		w.Case(id, strings.Join([]string{c.fm.name, bits(o), hx(c.content)}, " "), []string{obs})
+		if strings.Contains(c.desc, "(oracle only)") {
+			w.ImplOnly(id, c.desc)
+		} else {
+			w.Case(id, strings.Join([]string{c.fm.name, bits(o), hx(c.content)}, " "), []string{obs})
+		}
 		w.Count("read:" + c.fm.name)
 		if len(got) > 0 || rerr != nil {
 			w.NonTrivial(c.fm.name + "/" + obs)
